@@ -629,16 +629,27 @@ impl Formatter {
                 self.format_expr(&assign.object.node);
                 self.writer.write(".");
                 self.writer.write(&assign.field);
-                self.writer.write(" = ");
-                self.format_expr(&assign.value.node);
+                if let Some((op, rhs)) = desugared_compound(&assign.value) {
+                    self.writer.write(op);
+                    self.format_expr(&rhs.node);
+                } else {
+                    self.writer.write(" = ");
+                    self.format_expr(&assign.value.node);
+                }
                 self.writer.newline();
             }
             Statement::IndexAssignment(assign) => {
                 self.format_expr(&assign.object.node);
                 self.writer.write("[");
                 self.format_expr(&assign.index.node);
-                self.writer.write("] = ");
-                self.format_expr(&assign.value.node);
+                self.writer.write("]");
+                if let Some((op, rhs)) = desugared_compound(&assign.value) {
+                    self.writer.write(op);
+                    self.format_expr(&rhs.node);
+                } else {
+                    self.writer.write(" = ");
+                    self.format_expr(&assign.value.node);
+                }
                 self.writer.newline();
             }
             Statement::CompoundAssignment(assign) => {
@@ -1170,6 +1181,29 @@ impl Formatter {
             }
         }
     }
+}
+
+/// Recognise `target op= rhs` on a field/index target.
+///
+/// The parser desugars it into `target = target op rhs`; the synthesized binary node carries the span of
+/// its left operand (a written-out binary always extends past its left operand). Writing it back as
+/// `target = target op rhs` would regroup `a.x -= b - c` into `(a.x - b) - c`.
+fn desugared_compound(value: &Spanned<Expr>) -> Option<(&'static str, &Spanned<Expr>)> {
+    if let Expr::Binary(lhs, op, rhs) = &value.node {
+        if lhs.span == value.span {
+            let sym = match op {
+                BinaryOp::Add => " += ",
+                BinaryOp::Sub => " -= ",
+                BinaryOp::Mul => " *= ",
+                BinaryOp::Div => " /= ",
+                BinaryOp::FloorDiv => " //= ",
+                BinaryOp::Mod => " %= ",
+                _ => return None,
+            };
+            return Some((sym, rhs));
+        }
+    }
+    None
 }
 
 /// Escape special characters in a string
